@@ -276,7 +276,7 @@ func runScenario(threads []threadSpec) (log *eventLog, hung bool) {
 	select {
 	case <-done:
 		return log, false
-	case <-time.After(10 * time.Second):
+	case <-time.After(90 * time.Second):
 		return log, true
 	}
 }
